@@ -439,7 +439,8 @@ theorem nosignal_everywhere {σ : Type} (C : Cfg) (E : Engine σ) (e0 : σ) (scr
 
 /-! ## the run-time oracle is a theorem of the model -/
 
-/-- **spec_holds_on_model.**  The predicate `./check C15` evaluates on the implementation's transcript
+/-- **spec_holds_on_model_partial** (`_partial`: endpoints without TLS; the full statement and what it lacks are in
+`Spec/C15.lean` next to `model_satisfies_spec_partial`).  The predicate `./check C15` evaluates on the implementation's transcript
 (`Spec.specRun`, then `Spec.specFinal`, of `Spec/C15.lean` - the driver calls exactly these functions) accepts every
 trace the MODEL of the plain socket can produce: for every API level (synchronous `Send` / `Receive` of the basic and
 buffered socket with any timeout, asynchronous socket on a driver), every receive buffer size, every payload and every
@@ -453,10 +454,10 @@ runtime error, nothing thrown out of `Step`, MSG_NOSIGNAL on every send, waits w
 disconnect handler exactly once, every promise resolved or broken, delivered = prefix of the peer's stream and all of
 it for an orderly close - all consequences of the model; a `spec` verdict on the implementation is a difference
 between implementation and model. -/
-theorem spec_holds_on_model (async : Bool) (rsz : Nat) (ppay : Bytes) (history : List Spec.Op)
+theorem spec_holds_on_model_partial (async : Bool) (rsz : Nat) (ppay : Bytes) (history : List Spec.Op)
     (h : Spec.histOk async rsz ppay history = true) :
     ∃ s, Spec.specRun {} (Spec.modelTrace async rsz ppay history) = .ok s ∧ Spec.specFinal s = none :=
-  Spec.model_satisfies_spec async rsz ppay history h
+  Spec.model_satisfies_spec_partial async rsz ppay history h
 
 /-- the hypothesis is satisfiable by non-trivial histories of both API levels (more examples, including traces the
 predicate rejects and the necessity of each assumption, at the end of `Spec/C15.lean`) -/
